@@ -58,7 +58,9 @@ class C23(Prop):
                   'with the Python classes only as far as the correspondence cases show.')
     budget = {'quick': 2500, 'thorough': 30000}
     search_budget = {'quick': 4000, 'thorough': 30000}
-    rule = ('case = (backend, blob bytes, delivery chunk size, op[, GCS credential kind: anonymous / token / token expired on the first '
+    rule = ('plus seek cases on the local backend (the only seekable streams): open_from(start, length|None); readexactly(pre); '
+            'seek(k, SEEK_CUR) with k forward, zero or back inside the range; then a read pattern — compared with the model as the two '
+            'ranges before / after the seek; case = (backend, blob bytes, delivery chunk size, op[, GCS credential kind: anonymous / token / token expired on the first '
             'attempt of every request]) with op = open_from(start, length|None) + read pattern '
             '(readexactly*, then read(n)*, then read(-1) or a drain loop), read_from(start) or read_range(start, end, inclusive); '
             'exhaustive over sizes 0..4 (quick) / 0..8 (thorough) x all offsets 0..size+1 x all lengths None,0..size+2 x a fixed pattern set '
@@ -190,11 +192,38 @@ class C23(Prop):
             c['cred'] = rng.choice(self.CREDS) if rng is not None else 'token'
         return c
 
+    @staticmethod
+    def _seek_ok(c):
+        size = len(c['blob'])
+        avail = max(size - c['start'], 0) if c['len'] is None else min(max(size - c['start'], 0), c['len'])
+        pos = c['pre'] + c['k']
+        return c['pre'] <= avail and pos >= 0 and (c['len'] is None or (c['len'] >= 1 and pos <= c['len']))
+
+    def _seek_case(self, rng):
+        """local streams are the only seekable ones; SEEK_CUR is the whence whose meaning does not depend on where the range sits
+        in the file: the position stays inside [0, length]"""
+        for _ in range(100):
+            size = rng.choice([1, 2, 3, 5, 8, 12])
+            blob = self._blob(rng, size)
+            start = rng.choice([0, 1, 1, 2, rng.randint(0, size)])
+            ln = rng.choice([None, 1, 2, 3, max(size - start, 1), size + 2, rng.randint(1, size + 2)])
+            avail = max(size - start, 0) if ln is None else min(max(size - start, 0), ln)
+            pre = rng.randint(0, avail)
+            hi = (size - start + 2 - pre) if ln is None else ln - pre
+            k = rng.choice([0, 0, 1, -pre, rng.randint(-pre, max(hi, -pre))])
+            c = {'be': 'local', 'blob': blob, 'chunk': 0, 'kind': 'seek', 'start': start, 'len': ln, 'pre': pre, 'k': k,
+                 'ops': self._random_ops(rng, max(avail - pre - k, 0))}
+            if self._seek_ok(c):
+                return c
+        return {'be': 'local', 'blob': [1, 2, 3], 'chunk': 0, 'kind': 'seek', 'start': 1, 'len': 2, 'pre': 1, 'k': 0, 'ops': ['a']}
+
     def cases(self, rng, n, tier):
         for c in self._exhaustive(rng, 4 if tier == 'quick' else 8):
             yield self._norm(c, rng)
         for _ in range(n):
             yield self._norm(self._random_case(rng), rng)
+        for _ in range(400 if tier == 'quick' else 4000):
+            yield self._norm(self._seek_case(rng), rng)
 
     def search_cases(self, rng, n, hint):
         for c in self._exhaustive(rng, 6):
@@ -205,6 +234,14 @@ class C23(Prop):
     # ------------------------------------------------------------------------------------------ model side
     def model_lines(self, c):
         head = f"{c['be']} {fmt_bytes(c['blob'])} {c['chunk']}"
+        if c['kind'] == 'seek':
+            # readexactly(pre); seek(k, SEEK_CUR); post-pattern  ==  the first `pre` bytes of the range, then the pattern on the range
+            # that starts pre+k bytes further on (the range viewed as a file of its own)
+            ln = '-' if c['len'] is None else str(c['len'])
+            pos = c['pre'] + c['k']
+            ln2 = '-' if c['len'] is None else str(c['len'] - pos)
+            return [f"{head} open {c['start']} {ln} x{c['pre']}",
+                    f"{head} open {c['start'] + pos} {ln2} {','.join(c['ops']) if c['ops'] else '-'}"]
         if c['kind'] == 'open':
             ln = '-' if c['len'] is None else str(c['len'])
             return [f"{head} open {c['start']} {ln} {','.join(c['ops']) if c['ops'] else '-'}"]
@@ -305,7 +342,47 @@ class C23(Prop):
         dls = [f"{e[2]}:{'-' if e[3] is None else e[3]}" for e in store.log if e[0] == 'az-dl']
         return (';'.join(hdrs) if hdrs else '-', ';'.join(dls) if dls else '-', status, bytes(out), flags)
 
+    def _impl_seek(self, c):
+        """local backend only (the only stream classes that are seekable): two lines, the bytes before and after the seek"""
+        data = bytes(c['blob'])
+        scratch = tempfile.mkdtemp(prefix='verif-c23-')
+        assert not scratch.startswith('/repo') and not scratch.startswith('/verif')
+        lines = []
+        try:
+            path = os.path.join(scratch, c.get('name', 'obj'))
+            with open(path, 'wb') as fh:
+                fh.write(data)
+            url = c.get('url', '') + path
+            out1, out2, flags = bytearray(), bytearray(), []
+            stage = [0]
+
+            async def go():
+                async with await self.local.open_from(url, c['start'], length=c['len']) as f:
+                    out1.extend(await f.readexactly(c['pre']))
+                    stage[0] = 1
+                    assert f.seekable()
+                    await f.seek(c['k'], os.SEEK_CUR)
+                    stage[0] = 2
+                    await self._read_pattern(f, c['ops'], out2, flags)
+            try:
+                self.loop.run_until_complete(go())
+                status = 'ok'
+            except self.UnexpectedEOFError:
+                status = 'eof'
+            except AssertionError:
+                status = 'assert'
+            except Exception as e:  # noqa: BLE001
+                status = f'exc:{type(e).__name__}'
+            first = 'ok' if stage[0] >= 1 else status
+            second = status if stage[0] >= 1 else 'not-reached'
+            lines = [f'- - {first} {fmt_bytes(out1)}', f'- - {second} {fmt_bytes(out2)}' + (' !' + ','.join(flags) if flags else '')]
+        finally:
+            shutil.rmtree(scratch, ignore_errors=True)
+        return lines
+
     def impl(self, c):
+        if c['kind'] == 'seek':
+            return self._impl_seek(c)
         req, dl, status, out, flags = self._run(c)
         line = f'{req} {dl} {status} {fmt_bytes(out)}'
         if flags:
@@ -354,6 +431,17 @@ class C23(Prop):
         return ('ok', out if determined else want, determined)
 
     def oracle(self, c, impl_out):
+        if c['kind'] == 'seek' and not impl_out[0].startswith('IMPL-EXC'):
+            # the requested range viewed as a file of its own: read pre bytes, move the position by k, go on reading
+            rng_ = c['blob'][c['start']:] if c['len'] is None else c['blob'][c['start']:c['start'] + c['len']]
+            st1, o1, _ = self._parse_line(impl_out[0])
+            if (st1, o1) != ('ok', rng_[:c['pre']]):
+                return f"local seek case: readexactly({c['pre']}) gave {st1} {o1}, expected {rng_[:c['pre']]}"
+            pos = c['pre'] + c['k']
+            sub = {'be': 'local', 'blob': c['blob'], 'chunk': 0, 'kind': 'open', 'start': c['start'] + pos,
+                   'len': None if c['len'] is None else c['len'] - pos, 'ops': c['ops']}
+            msg = self.oracle(sub, [impl_out[1]])
+            return None if msg is None else f"after readexactly({c['pre']}); seek({c['k']}, SEEK_CUR) on open_from(start={c['start']}, length={c['len']}): {msg}"
         line = impl_out[0]
         if line.startswith('IMPL-EXC'):
             return line
@@ -385,6 +473,11 @@ class C23(Prop):
 
     # ------------------------------------------------------------------------------------------ bookkeeping
     def classify(self, c, impl_out):
+        if c['kind'] == 'seek':
+            k = c['k']
+            tags = ['be=local', 'kind=seek', 'seek=' + ('0' if k == 0 else 'forward' if k > 0 else 'back'),
+                    'seek-len=' + ('none' if c['len'] is None else 'given'), 'seek-start=' + ('0' if c['start'] == 0 else '>0')]
+            return (json.dumps(c, sort_keys=True) if c['start'] < len(c['blob']) else None, tags)
         status, out, _ = self._parse_line(impl_out[0]) if not impl_out[0].startswith('IMPL-EXC') else ('exc', [], '')
         size = len(c['blob'])
         tags = [f"be={c['be']}", f"kind={c['kind']}", f'status={status}', f'size={min(size, 9)}{"+" if size > 9 else ""}']
@@ -405,6 +498,16 @@ class C23(Prop):
         return json.dumps(c, sort_keys=True)
 
     def shrink(self, c, fails):
+        if c['kind'] == 'seek':
+            cur = json.loads(json.dumps(c))
+            for key, lo in (('start', 0), ('pre', 0), ('len', 1)):
+                while cur.get(key) is not None and cur[key] > lo:
+                    cand = {**cur, key: cur[key] - 1}
+                    if self._seek_ok(cand) and fails(cand):
+                        cur = cand
+                    else:
+                        break
+            return cur
         cur = json.loads(json.dumps(c))
         changed = True
         while changed:
